@@ -74,7 +74,18 @@ class P:
                    [("F", n) for n in ("f", "g", "min")] + [("R", n) for n in ("a", "b", "c")] + [(k, "") for k in "TLMC"]
             for _ in range(3000):
                 configs.append(rng.sample(pool, rng.randint(0, 8)))
+        # near-miss names: a descriptor registered for one name must leave every OTHER name of the same kind alone, however
+        # similar (case variants, prefixes/extensions), and the same name under another kind (`-` prefix vs infix)
+        near = [[("R", "a")], [("R", "A")], [("R", "ab")], [("R", "Total")], [("R", "total")], [("F", "f")], [("F", "F")], [("F", "ff")],
+                [("F", "Scale")], [("U", "and")], [("U", "AND")], [("U", "or")], [("U", "Not")], [("B", "beginwith")], [("B", "beginWith")],
+                [("B", "IN")], [("B", "-")], [("U", "-")], [("U", "+")], [("B", "+")], [("P", "++")], [("U", "++")],
+                [("R", "A"), ("R", "a")], [("F", "F"), ("F", "f")], [("U", "AND"), ("U", "and")], [("R", "f")], [("F", "a")]]
+        near_programs = ["a + A", "A", "ab + a", "Total; total", "f(a) + F(a)", "ff(1); f(1)", "Scale(1, 2) + scale(1, 2)", "AND [a, b]", "OR [a]",
+                         "not a", "'ab' beginWith 'a'", "a in [b]", "a - b", "- a", "+ a", "a + b", "a ++", "f + f(f)", "a(a)"]
         PT = progs.prec_table()
+        for cfg in near:
+            sds = ["SD:%s:%s" % (k, hx(n)) for k, n in cfg]
+            items.append((" ".join(sds + ["PARSE:" + hx(p) for p in near_programs]), (set(cfg), len(sds), near_programs)))
         for cfg in configs:
             sds = ["SD:%s:%s" % (k, hx(n)) for k, n in cfg]
             ps = list(PROGRAMS) if tier != "quick" else rng.sample(PROGRAMS, 12)
